@@ -12,7 +12,7 @@ META = dict(
     bounds=dict(quick='TRXD: fully symbolic datagrams of the boundary lengths of C04 (0..14, 151..160, 447..458) into recv_data_msg, running or not, then a valid burst; '
                       'TRXC: "CMD <VERB>" followed by a separator and up to 3 arbitrary octets for every verb that parses an integer, fully arbitrary datagrams of 0..5 octets, each followed by a valid command whose reply/effect is checked; '
                       'capture: fully symbolic file content of every length 0..14 through parse_all() / parse_msg(0) / parse_msg(1) / parse_all(1,1)',
-                thorough='TRXD every length 0..520; forward path for 81 lengths; TRXC tails up to 4 octets, arbitrary datagrams up to 6; capture lengths 0..20'),
+                thorough='TRXD every length 0..520; forward path for 81 lengths; TRXC tails up to 4 octets, arbitrary datagrams up to 6; capture lengths 0..18'),
     stubs=['fake socket', 'logging', 'per-character symbolic text: bytes.decode (ASCII + definitely-invalid UTF-8), str.startswith/strip/split/==, int(str) grammar model', 'time.sleep', 'file proxy with symbolic read/seek sizes (case split)'],
     outside=['toolkit control datagrams containing octets 0xC2..0xF4 (possible valid multi-byte UTF-8 text)', 'trxcon: control replies longer than prefix + 3 (6) arbitrary octets; sscanf modelled for <= 9 digits', 'control datagrams longer than the enumerated tails', 'FAKE_TRXC_DELAY with a delay the OS sleep cannot represent (sleep is stubbed)', ],
     assumptions=['after the malformed input the transceiver must still answer CMD SETTA <n> with RSP SETTA 0 <n> and apply it, and still queue a valid burst'],
@@ -52,7 +52,7 @@ def jobs(tier, seed):
     for total in (1022, 1023, 1024, 1025, 1100):
         out.append(('trxcon.ctrl.long.%d' % total, 'c_ctrl_any', dict(cmd='CMD POWEROFF', L=2, prefix='RSP POWEROFF 0 ' + 'A' * (total - 17))))
     out.append(('trxcon.validation', 'c_validate', dict(seed=seed)))
-    for L in range(0, (21 if tier == 'thorough' else 15)):
+    for L in range(0, (19 if tier == 'thorough' else 15)):
         for what in ('parse_all()', 'parse_msg(0)', 'parse_msg(1)', 'parse_all(1,1)'):
             out.append(('capture.len=%d.%s' % (L, what), 'h_capture', dict(L=L, what=what)))
     return out
